@@ -1,31 +1,59 @@
 """C13 — a finite lazy list is indistinguishable from the list it enumerates.
 
-System under test: the real vyxal.LazyList.LazyList and vyxal.helpers.deep_copy.  A LazyList is a
-memoising cursor shared by the object itself (next(L)), every generator iter(L) hands out and every
-deep_copy (an itertools.tee over iter(L)).  Those are concurrent readers of one cursor; the
-simulator interleaves observations across all handles and compares every return value with a plain
-Python list.  No faults are injected: the statement is about observation histories only.
+System under test: the real vyxal.LazyList.LazyList and vyxal.helpers (deep_copy, has_ind, concat,
+scalarify, iterable).  A LazyList is a memoising cursor shared by the object itself (next(L)), every
+generator iter(L) hands out, every deep_copy (an itertools.tee over iter(L)) and every lazy list
+derived from it (an open-stop slice, a reversed view, a concatenation).  Those are concurrent readers
+of one cursor; the simulator interleaves observations across all handles and compares every return
+value with a plain Python list.  No faults are injected: the statement is about observation
+histories only.
+
+Items are given as specs so that a case is JSON: ints, strings, lists, ["f", "0.5"] (a Python float
+in the source), ["b", true] (a bool), ["t", [...]] (a tuple), ["g", [...]] (a nested generator),
+["q", n, d] (a sympy Rational).  "The list it enumerates" is the list of the *Vyxal values* of those
+items (what vyxalify makes of them): 1/2, "True", [..], [..], n/d.
 """
 
 from __future__ import annotations
 
+from fractions import Fraction
+
 from sim import core
 from sim.core import OK, VIOLATION, DISCARD, sub_rng
-from sim import repo
+from sim import repo, world
 
 LIST_OBS = ["getitem", "getitem", "slice", "slice", "len", "bool", "contains", "eq_list", "eq_lazy", "count",
-            "reversed", "iterate", "listify", "copy", "iter", "force", "h_has_ind", "h_concat", "h_scalarify", "h_iterable"]
-REPRS = ["list", "gen", "iter", "range", "map", "tuple", "lazy", "lazycopy"]
-# item kinds other than small ints: equal items, strings, nested lists (needles for contains / count are drawn from them)
-ITEM_POOLS = {"eq": [1, 1, 1, 2], "str": ["a", "b", "ab", "a"], "nest": [[1], [1, 2], [], [1]], "mix": [0, "a", [1], 1, "a", [1]]}
+            "reversed", "iterate", "listify", "copy", "iter", "force", "h_has_ind", "h_concat", "h_scalarify", "h_iterable",
+            "mkslice", "mkrev", "mkadd"]
+REPRS = ["list", "gen", "iter", "range", "map", "tuple", "lazy", "lazycopy", "filter", "zip"]
+BIG = 3333333333333333
+ITEM_POOLS = {
+    "eq": [1, 1, 1, 2],
+    "str": ["a", "b", "ab", "a"],
+    "nest": [[1], [1, 2], [], [1]],
+    "mix": [0, "a", [1], 1, "a", [1]],
+    # items vyxalify has to convert when they are produced
+    "conv": [["f", "0.5"], ["b", True], ["t", [1, 2]], ["g", [1, 2]], 1, ["f", "2.0"], ["b", False], ["t", []]],
+    # exact rationals, some closer together than a double can resolve
+    "rat": [["q", 1, 2], ["q", 1, 3], ["q", BIG, 10 ** 16], ["q", 2 ** 53 + 1, 2], 2 ** 52, 1, ["q", 10 ** 17 + 1, 10 ** 17]],
+}
 
 
-class Unjudged(Exception):
-    pass
-
-
-def model_slice(src, a, b, c):
-    return src[slice(a, b, c)]
+def mval(x):
+    """model (Vyxal) value of an item spec, in world.to_model's normal form"""
+    if isinstance(x, list):
+        if x and x[0] == "f" and len(x) == 2 and isinstance(x[1], str):
+            f = Fraction(x[1])
+            return f.numerator if f.denominator == 1 else ["q", f.numerator, f.denominator]
+        if x and x[0] == "b" and len(x) == 2 and isinstance(x[1], bool):
+            return str(x[1])
+        if x and x[0] in ("t", "g") and len(x) == 2 and isinstance(x[1], list):
+            return [mval(y) for y in x[1]]
+        if x and x[0] == "q" and len(x) == 3:
+            f = Fraction(x[1], x[2])
+            return f.numerator if f.denominator == 1 else ["q", f.numerator, f.denominator]
+        return [mval(y) for y in x]
+    return x
 
 
 def arg_class(ev, n):
@@ -33,9 +61,11 @@ def arg_class(ev, n):
     if k == "getitem":
         i = ev[2]
         return "neg" if i < 0 else ("in" if i < n else "wrap")
-    if k == "slice":
+    if k in ("slice", "mkslice"):
         def s(v):
             return "N" if v is None else ("-" if v < 0 else ("0" if v == 0 else ("+" if v <= n else ">")))
+        if k == "mkslice":
+            return s(ev[2]) + "N" + ("N" if ev[3] is None else "+")
         return s(ev[2]) + s(ev[3]) + ("N" if ev[4] is None else ("-" if ev[4] < 0 else "+"))
     if k in ("contains", "count"):
         return "x"
@@ -46,12 +76,13 @@ class C13(core.Check):
     id = "C13"
     title = "A finite lazy list is indistinguishable from the list it enumerates"
     tiers = {
-        "quick": dict(runs=1_000_000, batch=5000, wall=70),
-        "thorough": dict(runs=24_000_000, batch=10000, wall=800),
+        "quick": dict(runs=600_000, batch=5000, wall=70),
+        "thorough": dict(runs=16_000_000, batch=10000, wall=800),
     }
     components_real = ["vyxal/LazyList.py (LazyList, every dunder and method exercised)", "vyxal/helpers.py deep_copy, "
-                       "vyxalify, simplify"]
-    components_stub = ["the source iterator handed to LazyList(...) is a harness-built list/generator/iter/range/map"]
+                       "vyxalify, simplify, has_ind, concat, scalarify, iterable"]
+    components_stub = ["the source iterator handed to LazyList(...) is a harness-built list / generator / iter / range / map / "
+                       "filter / zip / tuple / lazy list / deep copy"]
     fault_kinds = []
     assumptions = [
         "observations on the empty list by index, and negative indices below -len, are undefined by the statement "
@@ -59,12 +90,16 @@ class C13(core.Check):
         "next(L) on the list object itself is used as a scheduler action (force one item) and only its "
         "after-effects are judged",
         "slice step 0 is never generated",
+        "the list a lazy list enumerates is the list of the Vyxal values of what its source yields (floats are exact "
+        "rationals, bools are strings, tuples and generators are lists)",
     ]
-    rule = ("one run = one source (length 0..8, small ints; 45% of runs in the statement's small scope: length 0..3 "
-            "over {0,1,2}, history <= 4) in a seeded representation, plus a seeded interleaving of <= 12 observation "
-            "events over all live handles (the list, its iterators, its deep copies and theirs). distinct = distinct "
-            "(source, representation, event list) triples; non-trivial = at least one observation judged against the "
-            "list model. Every handle is listified and compared at the end of each history.")
+    rule = ("one run = one source (length 0..8; small ints, or equal items / strings / nested lists / items that need "
+            "conversion / close rationals; 45% of runs in the statement's small scope: length 0..3 over {0,1,2}, history "
+            "<= 4) in a seeded representation, plus a seeded interleaving of <= 12 observation events over all live "
+            "handles: the list, its iterators, its deep copies and theirs, and lazy lists derived from it (open-stop "
+            "slices, reversed views, concatenations) with iterators and copies of their own. distinct = distinct (source, "
+            "representation, event list) triples; non-trivial = at least one observation judged against the list model. "
+            "Every list handle is listified and compared at the end of each history.")
 
     def setup(self):
         m = repo.load()
@@ -88,13 +123,12 @@ class C13(core.Check):
             nev = rw.randint(1, 12)
         rep = rw.choice(REPRS)
         pool = None
-        if not small and rw.random() < 0.3 and rep != "range":
+        if not small and rw.random() < 0.35 and rep != "range":
             pool = ITEM_POOLS[rw.choice(sorted(ITEM_POOLS))]
             src = [rw.choice(pool) for _ in range(n)]
         if rep == "range":
             a = rw.randint(0, 2)
             src = list(range(a, a + n))
-        # swarm: a per-run subset of observation kinds
         kinds = sorted(set(LIST_OBS))
         if rw.random() < 0.6:
             k = rw.randint(2, len(kinds))
@@ -102,6 +136,10 @@ class C13(core.Check):
         weights = [LIST_OBS.count(k) for k in kinds]
         events, lists, iters, nxt = [], [0], [], 1
         pre = rw.choice([0, 0, 0, 1, 2, n, n + 1]) if not small else rw.choice([0, 0, 1])
+
+        def needle():
+            return rs.choice(pool) if pool else rs.randint(0, 3)
+
         for _ in range(nev):
             if iters and rs.random() < 0.3:
                 events.append(["next_it", rs.choice(iters)])
@@ -118,7 +156,7 @@ class C13(core.Check):
                 c = rs.choice([None, None, 1, 1, 2, 3, -1, -1, -2])
                 events.append([k, h, pick(), pick(), c])
             elif k in ("contains", "count"):
-                events.append([k, h, rs.choice(pool) if pool else rs.randint(0, 3)])
+                events.append([k, h, needle()])
             elif k == "h_has_ind":
                 events.append([k, h, rs.randint(-2, n + 2)])
             elif k == "h_concat":
@@ -128,7 +166,10 @@ class C13(core.Check):
                 r = rs.random()
                 if r < 0.3 and other:
                     j = rs.randrange(len(other))
-                    other[j] = other[j] + 1 if isinstance(other[j], int) else 7
+                    if pool and rs.random() < 0.7:
+                        other[j] = rs.choice(pool)   # possibly a near twin of the item
+                    else:
+                        other[j] = other[j] + 1 if isinstance(other[j], int) else 7
                 elif r < 0.45:
                     other = other[:-1] if other else [0]
                 elif r < 0.55:
@@ -139,8 +180,11 @@ class C13(core.Check):
                     events.append([k, h, "h", rs.choice(lists)])
                 else:
                     other = list(src)
-                    if rs.random() < 0.4:
+                    r = rs.random()
+                    if r < 0.3:
                         other = other + [1] if rs.random() < 0.5 else other[:-1]
+                    elif r < 0.5 and other and pool:
+                        other[rs.randrange(len(other))] = rs.choice(pool)
                     events.append([k, h, "new", other])
             elif k == "copy":
                 events.append([k, h, nxt])
@@ -150,38 +194,82 @@ class C13(core.Check):
                 events.append([k, h, nxt])
                 iters.append(nxt)
                 nxt += 1
+            elif k == "mkslice":
+                # a lazy list derived from h: h[a::c] (open stop), observed later while h is observed too
+                events.append([k, h, rs.choice([None, 0, 1, 1, 2, 3]), rs.choice([None, None, 1, 2, 3]), nxt])
+                lists.append(nxt)
+                nxt += 1
+            elif k == "mkrev":
+                events.append([k, h, nxt])
+                lists.append(nxt)
+                nxt += 1
+            elif k == "mkadd":
+                events.append([k, h, [rs.randint(0, 3) for _ in range(rs.randint(0, 2))], nxt])
+                lists.append(nxt)
+                nxt += 1
             else:
                 events.append([k, h])
         return dict(src=src, repr=rep, pre=pre, events=events, small=small)
 
     # ---------------------------------------------------------------- execution
+    def real(self, x):
+        """the Python object a source yields for an item spec"""
+        import sympy
+
+        if isinstance(x, list):
+            if x and x[0] == "f" and len(x) == 2 and isinstance(x[1], str):
+                return float(x[1])
+            if x and x[0] == "b" and len(x) == 2 and isinstance(x[1], bool):
+                return x[1]
+            if x and x[0] == "t" and len(x) == 2 and isinstance(x[1], list):
+                return tuple(self.real(y) for y in x[1])
+            if x and x[0] == "g" and len(x) == 2 and isinstance(x[1], list):
+                return (self.real(y) for y in list(x[1]))
+            if x and x[0] == "q" and len(x) == 3:
+                return sympy.Rational(x[1], x[2])
+            return [self.real(y) for y in x]
+        return x
+
+    def vy(self, m):
+        """the Vyxal value (what a program would hold) of a model value: used for needles and comparison lists"""
+        import sympy
+
+        if isinstance(m, list):
+            if len(m) == 3 and m[0] == "q":
+                return sympy.Rational(m[1], m[2])
+            return [self.vy(y) for y in m]
+        return m
+
     def build(self, src, rep):
+        LL = self.LazyList
+
+        def items():
+            return [self.real(x) for x in src]
+
         if rep == "list":
-            return self.LazyList(list(src))
+            return LL(items())
         if rep == "gen":
-            return self.LazyList(x for x in list(src))
+            return LL(x for x in items())
         if rep == "iter":
-            return self.LazyList(iter(list(src)))
+            return LL(iter(items()))
         if rep == "range":
-            return self.LazyList(range(src[0], src[0] + len(src)) if src else range(0))
+            return LL(range(src[0], src[0] + len(src)) if src else range(0))
         if rep == "map":
-            return self.LazyList(map(lambda x: x, list(src)))
+            return LL(map(lambda x: x, items()))
+        if rep == "filter":
+            return LL(filter(lambda x: True, items()))
+        if rep == "zip":
+            return LL(x for (x,) in zip(items()))
         if rep == "tuple":
-            return self.LazyList(tuple(src))
+            return LL(tuple(items()))
         if rep == "lazy":
-            return self.LazyList(self.LazyList(list(src)))          # a lazy list over another lazy list
+            return LL(LL(items()))                       # a lazy list over another lazy list
         if rep == "lazycopy":
-            return self.deep_copy(self.LazyList(iter(list(src))))    # what `:` leaves on the stack
+            return self.deep_copy(LL(iter(items())))     # what `:` leaves on the stack
         raise ValueError(rep)
 
-    def norm(self, v):
-        if isinstance(v, self.LazyList):
-            return [self.norm(x) for x in v.listify()]
-        if isinstance(v, (list, tuple)):
-            return [self.norm(x) for x in v]
-        if isinstance(v, bool):
-            return int(v)
-        return v
+    def tm(self, v):
+        return world.to_model(v, self.LazyList, 500)
 
     def state_of(self, h, n):
         g = getattr(h, "generated", None)
@@ -190,46 +278,51 @@ class C13(core.Check):
         return "fresh" if not g else ("full" if len(g) >= n else "part")
 
     def run(self, case):
-        src = list(case["src"])
-        n = len(src)
         LazyList = self.LazyList
-        root = self.build(src, case["repr"])
+        spec = list(case["src"])
+        src = [mval(x) for x in spec]
+        root = self.build(spec, case["repr"])
         for _ in range(case.get("pre", 0)):
             try:
                 next(root)
             except StopIteration:
                 break
-        handles = {0: ("list", root)}
+        handles = {0: ("list", root, src)}
         pos = {}
         log, cov, traj = [], set(), []
         judged = 0
         culprit = None
+        tm = self.tm
 
         def cache_ok():
-            for hid, (kind, obj) in handles.items():
+            # white-box hint only (never a verdict): is every cache still a prefix of what its list denotes?
+            for hid, (kind, obj, model) in handles.items():
                 if kind == "list":
                     g = getattr(obj, "generated", None)
-                    if isinstance(g, list) and g != src[: len(g)]:
-                        return False
+                    if isinstance(g, list) and not any(isinstance(x, LazyList) for x in g):
+                        try:
+                            if [world.eager_snapshot(x, LazyList) for x in g] != model[: len(g)]:
+                                return False
+                        except Exception:
+                            return True
             return True
 
-        def fail(clause, ev, st, got, want):
+        def fail(clause, ev, st, got, want, n):
             kind = ev[0]
             sig = f"{clause}:{kind}:{arg_class(ev, n)}:st={st}|culprit={culprit or '-'}"
-            detail = f"src={src} repr={case['repr']} event={ev} got={got!r} want={want!r}"
+            detail = f"src={spec} repr={case['repr']} event={ev} got={got!r} want={want!r}"
             log.append(dict(violation=sig, got=repr(got), want=repr(want)))
             return dict(verdict=VIOLATION, sig=sig, detail=detail, log=log, steps=len(log), cov=sorted(cov),
                         hist=self.hist(case))
 
         events = list(case["events"])
-        # end of history: every list handle still denotes src
         final = "final"
         idx = 0
         while True:
             if idx < len(events):
                 ev = events[idx]
             elif final == "final":
-                events = events + [["listify", hid] for hid, (k, _) in sorted(handles.items()) if k == "list"]
+                events = events + [["listify", hid] for hid, (k, _, _) in sorted(handles.items()) if k == "list"]
                 final = "done"
                 if idx >= len(events):
                     break
@@ -241,7 +334,8 @@ class C13(core.Check):
             ent = handles.get(ev[1])
             if ent is None:
                 continue  # handle removed by shrinking: skip
-            hk, h = ent
+            hk, h, msrc = ent
+            n = len(msrc)
             if (kind == "next_it") != (hk == "iter"):
                 continue
             st = self.state_of(h, n) if hk == "list" else "it"
@@ -251,16 +345,16 @@ class C13(core.Check):
             try:
                 if kind == "next_it":
                     p = pos[ev[1]]
-                    want = src[p] if p < n else "StopIteration"
+                    want = msrc[p] if p < n else "StopIteration"
                     try:
-                        got = next(h)
+                        got = tm(next(h))
                         pos[ev[1]] = p + 1
                     except StopIteration:
                         got = "StopIteration"
                 elif kind == "force":
                     judge = False
                     try:
-                        got = next(h)
+                        got = tm(next(h))
                     except StopIteration:
                         got = "StopIteration"
                 elif kind == "getitem":
@@ -268,57 +362,82 @@ class C13(core.Check):
                     if n == 0 or i < -n:
                         judge = False
                     else:
-                        want = src[i] if i < n else src[i % n]
-                    got = h[i]
+                        want = msrc[i] if i < n else msrc[i % n]
+                    got = tm(h[i])
                 elif kind == "slice":
                     a, b, c = ev[2], ev[3], ev[4]
-                    want = src[slice(a, b, c)]
-                    got = self.norm(h[slice(a, b, c)])
+                    want = msrc[slice(a, b, c)]
+                    got = tm(h[slice(a, b, c)])
                 elif kind == "len":
                     want, got = n, len(h)
                 elif kind == "bool":
-                    want, got = int(bool(src)), int(bool(h))
+                    want, got = int(bool(msrc)), int(bool(h))
                 elif kind == "contains":
-                    want, got = int(ev[2] in src), int(bool(ev[2] in h))
+                    x = mval(ev[2])
+                    want, got = int(x in msrc), int(bool(self.vy(x) in h))
                 elif kind == "eq_list":
-                    want, got = int(src == ev[2]), int(bool(h == list(ev[2])))
+                    other = [mval(o) for o in ev[2]]
+                    want, got = int(msrc == other), int(bool(h == self.vy(other)))
                 elif kind == "eq_lazy":
                     if ev[2] == "h":
                         o = handles.get(ev[3])
                         if o is None or o[0] != "list":
                             continue
-                        want, got = 1, int(bool(h == o[1]))
+                        want, got = int(msrc == o[2]), int(bool(h == o[1]))
                     else:
-                        want, got = int(src == ev[3]), int(bool(h == LazyList(list(ev[3]))))
+                        other = [mval(o) for o in ev[3]]
+                        want, got = int(msrc == other), int(bool(h == LazyList(self.vy(other))))
                 elif kind == "count":
-                    want, got = src.count(ev[2]), h.count(ev[2])
+                    x = mval(ev[2])
+                    want, got = msrc.count(x), h.count(self.vy(x))
                 elif kind == "reversed":
-                    want, got = src[::-1], self.norm(h.reversed())
+                    want, got = msrc[::-1], tm(h.reversed())
                 elif kind == "iterate":
-                    want, got = list(src), self.norm(list(h))
+                    want, got = list(msrc), tm(list(h))
                 elif kind == "listify":
-                    want, got = list(src), self.norm(h.listify())
+                    want, got = list(msrc), tm(h.listify())
                 elif kind == "h_has_ind":
                     want, got = int(0 <= ev[2] < n), int(bool(self.helpers.has_ind(h, ev[2])))
                 elif kind == "h_concat":
-                    want, got = list(src) + list(ev[2]), self.norm(self.helpers.concat(h, list(ev[2])))
+                    want, got = list(msrc) + list(ev[2]), tm(self.helpers.concat(h, list(ev[2])))
                 elif kind == "h_scalarify":
-                    want = src[0] if n == 1 else list(src)
-                    got = self.norm(self.helpers.scalarify(h))
+                    want = msrc[0] if n == 1 else list(msrc)
+                    got = tm(self.helpers.scalarify(h))
                 elif kind == "h_iterable":
-                    want, got = list(src), self.norm(self.helpers.iterable(h))
+                    want, got = list(msrc), tm(self.helpers.iterable(h))
                 elif kind == "copy":
                     judge = False
                     if ev[2] in handles:
                         continue
-                    handles[ev[2]] = ("list", self.deep_copy(h))
+                    handles[ev[2]] = ("list", self.deep_copy(h), msrc)
                     got = "handle"
                 elif kind == "iter":
                     judge = False
                     if ev[2] in handles:
                         continue
-                    handles[ev[2]] = ("iter", iter(h))
+                    handles[ev[2]] = ("iter", iter(h), msrc)
                     pos[ev[2]] = 0
+                    got = "handle"
+                elif kind == "mkslice":
+                    judge = False
+                    if ev[4] in handles:
+                        continue
+                    d = h[slice(ev[2], None, ev[3])]
+                    if not isinstance(d, LazyList):
+                        d = LazyList(d)
+                    handles[ev[4]] = ("list", d, msrc[slice(ev[2], None, ev[3])])
+                    got = "handle"
+                elif kind == "mkrev":
+                    judge = False
+                    if ev[2] in handles:
+                        continue
+                    handles[ev[2]] = ("list", h.reversed(), msrc[::-1])
+                    got = "handle"
+                elif kind == "mkadd":
+                    judge = False
+                    if ev[3] in handles:
+                        continue
+                    handles[ev[3]] = ("list", h + list(ev[2]), list(msrc) + list(ev[2]))
                     got = "handle"
                 else:
                     continue
@@ -328,7 +447,7 @@ class C13(core.Check):
                     continue
                 if culprit is None and not cache_ok():
                     culprit = f"{kind}:{arg_class(ev, n)}"
-                return fail("raises", ev, st, repr(e), want)
+                return fail("raises", ev, st, repr(e), want, n)
             log.append(dict(ev=ev, st=st, got=got if not isinstance(got, list) or len(got) < 20 else got[:20]))
             g = getattr(root, "generated", None)
             traj.append(len(g) if isinstance(g, list) else -1)
@@ -337,11 +456,13 @@ class C13(core.Check):
             if judge:
                 judged += 1
                 if got != want:
-                    return fail("value", ev, st, got, want)
+                    return fail("value", ev, st, got, want, n)
         cov.add("traj:" + ",".join(map(str, traj[:12])))
         return dict(verdict=OK if judged else DISCARD, sig="" if judged else "nothing-judged", log=log,
                     steps=len(log), cov=sorted(cov), hist=self.hist(case),
-                    probes={"small_scope": int(bool(case.get("small"))), "copies": sum(1 for e in case["events"] if e[0] == "copy")})
+                    probes={"small_scope": int(bool(case.get("small"))),
+                            "copies": sum(1 for e in case["events"] if e[0] == "copy"),
+                            "derived": sum(1 for e in case["events"] if e[0] in ("mkslice", "mkrev", "mkadd"))})
 
     def hist(self, case):
         return core.digest([case["src"], case["repr"], case.get("pre", 0), case["events"]])
